@@ -1,7 +1,75 @@
 import EdpVerif.Drv.Etf
 import EdpVerif.Spec.Handshake
+import EdpVerif.Spec.Epmd
+import EdpVerif.Impl.Epmd
+import EdpVerif.Impl.Connect
+import EdpVerif.Drv.C04
 namespace Edp.Drv
 open Edp
+
+namespace C04Net
+open Edp.Impl
+
+/-- `rep<n>`: the byte 'n' repeated (long names), else hex -/
+def getRep (s : String) : Except String Bytes :=
+  if s.startsWith "rep" then
+    match (s.drop 3).toNat? with
+    | some n => .ok (List.replicate n 110)
+    | none => .error "bad-rep"
+  else getHex s
+
+def getRepWith (b : UInt8) (s : String) : Except String Bytes :=
+  if s.startsWith "rep" then
+    match (s.drop 3).toNat? with
+    | some n => .ok (List.replicate n b)
+    | none => .error "bad-rep"
+  else getHex s
+
+def fnv (bs : Bytes) : Nat := bs.foldl (fun h b => ((h ^^^ b.toNat) * 16777619) % 4294967296) 2166136261
+
+def reqText (bs : Bytes) : String :=
+  if bs.length > 600 then s!"len{bs.length}fnv{fnv bs}" else (if bs.isEmpty then "-" else hexOf bs)
+
+def hexArg (bs : Bytes) : String := if bs.isEmpty then "-" else hexOf bs
+
+def epmdErr : Epmd.Err → String
+  | .notFound => "notfound"
+  | .badType b => s!"badtype-{b}"
+  | .badProto b => s!"badproto-{b}"
+  | .nameLong n => s!"namelong-{n}"
+  | .badUtf8 => "badutf8"
+  | .extraLong n => s!"extralong-{n}"
+  | .badResp b => s!"badresp-{b}"
+  | .regErr c => s!"regerr-{c}"
+  | .eof => "eof"
+  | .timeout => "timeout"
+  | .noEpmd => "noepmd"
+
+def infoText (i : Epmd.NodeInfo) : String :=
+  s!"ok {i.port} {i.type} {i.proto} {i.hi} {i.lo} {hexArg i.name} {hexArg i.extra}"
+
+def getStream (reply close : String) : Except String Epmd.Stream := do
+  pure ⟨← getHex reply, close == "close"⟩
+
+def getEv (s : String) : Except String Connect.PeerEv :=
+  if s == "close" then .ok .close
+  else if s == "silent" then .ok .silent
+  else if s.startsWith "f" then do pure (.frame (← getHex (s.drop 1).toString))
+  else .error "bad-ev"
+
+def cerrText : Connect.CErr → String
+  | .hs e => "err-" ++ C04.errName e
+  | .nodeName => "err-e-nodename"
+  | .epmd .eof => "err-io"            -- `Error::Io` whoever reported it
+  | .epmd .timeout => "err-timeout"   -- `Error::Timeout`
+  | .epmd e => "err-epmd-" ++ epmdErr e
+  | .io => "err-io"
+  | .timeout => "err-timeout"
+  | .panic => "panic"
+  | .unmodelled => "unmodelled"
+
+end C04Net
+open C04Net
 
 /-- socket-level C04 oracles: what the scripted peer received, judged by the handshake Spec (layouts; the reply digest
 recomputed with the MD5 implemented in Lean) -/
@@ -25,6 +93,129 @@ def handleC04Net : List String → Option String
     match Spec.Handshake.parseReply (be16 m.length ++ m) with
     | some (_, d) => pure (if d == Spec.Handshake.digest c ch.toNat! then "ok" else "FAIL digest " ++ hexOf d)
     | none => pure "FAIL not a reply"
+  -- `c04epmd_lookup <name> <reply> <close|open>`: the real `lookup_node` against a scripted EPMD
+  | ["c04epmd_lookup", n, reply, cl] => some <| run do
+    let name ← getRep n
+    let st ← getStream reply cl
+    match Impl.Epmd.lookupReq name with
+    | .panic => pure "req=- panic"
+    | .ok rq =>
+      match (Impl.Epmd.lookupParse st).2 with
+      | .ok i => pure s!"req={reqText rq} {infoText i}"
+      | .error e => pure s!"req={reqText rq} err {epmdErr e}"
+  | ["c04epmd_register", port, n, ty, hi, lo, extra, reply, cl] => some <| run do
+    let name ← getRep n
+    let ex ← getRepWith 5 extra
+    let st ← getStream reply cl
+    let rq := Impl.Epmd.registerReq port.toNat! ty.toNat! hi.toNat! lo.toNat! name ex
+    match Impl.Epmd.registerParse st with
+    | .ok c => pure s!"req={reqText rq} ok {c}"
+    | .error e => pure s!"req={reqText rq} err {epmdErr e}"
+  | ["c04epmd_absent"] => some ("err " ++ epmdErr .noEpmd)
+  -- the Spec on the observed result of a lookup: `ok` only for a reply that starts with a well-formed PORT2_RESP whose
+  -- fields are the reported ones (and within the client's documented limits); never a hang or a panic; a timeout only
+  -- when EPMD stayed silent, an end-of-stream error only when it closed
+  | ["c04p_epmd_lookup", reply, cl, res] => some <| run do
+    let bs ← getHex reply
+    let words := res.splitOn ","
+    match words with
+    | ["hang"] => pure "FAIL no result within the configured timeout"
+    | ["panic"] => pure "FAIL panic"
+    | "ok" :: rest =>
+      match Spec.Epmd.readPort2Resp bs with
+      | none => pure "FAIL accepted a reply that is not a PORT2_RESP"
+      | some (i, _) =>
+        let want := [toString i.port, toString i.type, toString i.proto, toString i.hi, toString i.lo, hexArg i.name, hexArg i.extra]
+        if want != rest then pure ("FAIL fields " ++ " ".intercalate want)
+        else if i.name.length > 255 then pure "FAIL a node name of more than 255 bytes accepted"
+        else if ¬ Spec.Epmd.nodeTypes.contains i.type then pure "FAIL node type"
+        else if i.proto != Spec.Epmd.protoTcp then pure "FAIL protocol"
+        else pure "ok"
+    | ["err", "timeout"] => pure (if cl == "open" then "ok" else "FAIL timeout although EPMD closed")
+    | ["err", "eof"] => pure (if cl == "close" then "ok" else "FAIL eof although EPMD is silent")
+    | ["err", _] =>
+      -- a refusal of a complete, well-formed reply must have a reason the protocol or the documented limits give
+      match Spec.Epmd.readPort2Resp bs with
+      | some (i, _) =>
+        if Spec.Epmd.nodeTypes.contains i.type && i.proto == Spec.Epmd.protoTcp && i.name.length ≤ 255 && i.extra.length ≤ 4096
+            && validUtf8 i.name then pure "FAIL well-formed reply refused" else pure "ok"
+      | none => pure "ok"
+    | _ => pure "FAIL unknown result"
+  -- `c04connect <local> <remote> <cookie> <flags> <epmd reply> <close|open> <listen|refuse> <status ev> <challenge ev> <ack ev> <our challenge> <creation>`
+  | ["c04connect", l, r, c, f, reply, cl, tcp, e1, e2, e3, our, cr] => some <| run do
+    let lb ← getHex l
+    let cb ← getHex c
+    let rb ← getHex r
+    let es ← getStream reply cl
+    let ev1 ← getEv e1
+    let ev2 ← getEv e2
+    let ev3 ← getEv e3
+    let fl ← C04.getNat f
+    let crn ← C04.getNat cr
+    let ourn ← C04.getNat our
+    let cfg : Impl.Handshake.Cfg := ⟨lb, cb, fl, crn⟩
+    let env : Impl.Connect.Env := ⟨rb, true, es, (if tcp == "listen" then .ok else .refused), ev1, ev2, ev3, ourn, .ok, .ok, .ok⟩
+    let (a, res) := Impl.Connect.connect cfg Spec.Handshake.digest Impl.Handshake.State.init env
+    let rt := match res with
+      | .ok _ => "ok"
+      | .error e => cerrText e
+    pure s!"{rt} {C04.stateName a.st.state} neg={C04.negText a.st.neg} w={hexArg a.w.flatten}"
+  -- the property on one observed `connect`, by the Spec alone: connected iff the peer sent an accepting status, a well-formed
+  -- challenge and the digest of (cookie, the challenge in this side's reply); the bytes written are the Spec layouts in the
+  -- protocol's order; the negotiated set is the intersection; never a hang
+  | ["c04p_connect", l, c, f, e1, e2, e3, our, res, state, rest, remote, envw] => some <| run do
+    let rname ← getHex remote
+    -- a remote node name as the protocol has it: name@host, 1..255 name bytes, a host
+    let atPos := rname.findIdx (· == 64)
+    let remoteValid := atPos < rname.length && 1 ≤ atPos && atPos ≤ 255 && atPos + 1 < rname.length
+    let envOk := envw == "envok" && remoteValid
+    let name ← getHex l
+    let cookie ← getHex c
+    let flags := f.toNat!
+    let ev1 ← getEv e1
+    let ev2 ← getEv e2
+    let ev3 ← if e3 == "good" then pure Impl.Connect.PeerEv.silent else getEv e3
+    let (negT, wT) := match rest.splitOn "," with
+      | [a, b] => (a, b)
+      | _ => ("-", "-")
+    let w ← getHex wT
+    if res == "hang" then pure "FAIL no result within the configured timeout" else
+    if res == "panic" then pure "FAIL panic" else
+    let st := match ev1 with
+      | .frame b => (Spec.Handshake.parseStatus b).map (·.accepts) == some true
+      | _ => false
+    let ch := match ev2 with
+      | .frame b => Spec.Handshake.parseChallenge b
+      | _ => none
+    let ak := e3 == "good" || match ev3 with
+      | .frame b => Spec.Handshake.parseAck b == some (Spec.Handshake.digest cookie our.toNat!)
+      | _ => false
+    let should := st && ch.isSome && ak && name.length ≤ 255
+    let is := state == "connected"
+    if is != (res == "ok") then pure "FAIL result and state disagree" else
+    if is && !should then pure "FAIL connected without proof" else
+    if !is && should && envOk then pure "FAIL a conforming peer behind a conforming EPMD is rejected" else
+    -- negotiated flags
+    let negOk : Bool := match ch with
+      | some m => if is then negT == toString (m.flags &&& flags) else true
+      | none => true
+    if !negOk then pure "FAIL negotiated flags are not the intersection" else
+    -- what was written: a prefix of [send_name, complement, reply] in this order, each the Spec layout
+    let nameMsg := Spec.Handshake.sendNameOld flags name
+    let strip := fun (pre bs : Bytes) => if bs.take pre.length == pre then some (bs.drop pre.length) else none
+    if w.isEmpty then pure "ok" else
+    match strip nameMsg w with
+    | none => pure "FAIL first message is not the send_name layout"
+    | some r1 =>
+      if r1.isEmpty then pure "ok" else
+      if r1.take 3 != [0, 9, 99] || (r1.drop 3).take 4 != be32 (flags / 4294967296) then pure "FAIL complement layout" else
+      let r2 := r1.drop 11
+      if r2.isEmpty then pure "ok" else
+      match ch with
+      | none => pure "FAIL a reply without a challenge"
+      | some m =>
+        if r2 == Spec.Handshake.reply our.toNat! (Spec.Handshake.digest cookie m.challenge) then pure "ok"
+        else pure "FAIL reply is not the digest of the cookie and the peer's challenge"
   | _ => none
 
 end Edp.Drv
